@@ -82,8 +82,10 @@ def run(seed, tier):
                 n = int((T + start + 6) * k * rng.choice([0.6, 1.2])) + 3
                 hist = adapt.history(hk, n, rng)
                 reset_at = rng.randrange(2 * k, max(2 * k + 1, n - 2)) if rng.random() < 0.35 else None
+                roundtrip_at = rng.randrange(1, n - 1) if rng.random() < 0.4 else None
                 desc = dict(proposal=name, adaptation_duration=T, jump_interval=k, start_step=start, history=hk, steps=n,
-                            reset_before_step=reset_at)
+                            reset_before_step=reset_at, state_roundtrip_before_step=roundtrip_at)
+                own = dict(start=start)           # the harness's own clock, independent of the proposal's counters
                 problems = []
                 first = [None]
                 last = [None]
@@ -99,12 +101,20 @@ def run(seed, tier):
                         first[0] = b
                     last[0] = a
                     check_step(kind, b, a, info, problems)
+                    # freezing by the harness's own count of proposal steps (update calls // jump interval, resets tracked)
+                    i = info['i']
+                    if reset_at is not None and i == reset_at:
+                        own['start'] = max(i // k, 1)
+                    own_dk = i // k - own['start'] + 1
+                    if kind not in ('ss', 'ss_cov') and own_dk >= T and not struct_same(b, a, skip=('nsteps', 'start')):
+                        problems.append('proposal distribution changed %d proposal steps after its adaptation window started (duration %d): %s -> %s'
+                                        % (own_dk, T, {q: b[q] for q in b if b[q] != a[q]}, {q: a[q] for q in b if b[q] != a[q]}))
                     if info['called'] and kind in MODELLED:
                         t = adapt.coq_case(kind, b, a, info['accepted'], info['ar'], info['x'])
                         if t:
                             terms.append(t)
                             meta.append(dict(desc, step=info['i'], before=b, after=a, ar=info['ar'], accepted=info['accepted']))
-                adapt.drive(name, T, k, start, hist, rng, on_step, reset_at=reset_at)
+                adapt.drive(name, T, k, start, hist, rng, on_step, reset_at=reset_at, roundtrip_at=roundtrip_at)
                 # sustained histories must move the scale strictly in the documented direction
                 if first[0] is not None and last[0] is not None and hk in ('always', 'never') and n > 3 * k + start * k and reset_at is None:
                     s0, s1 = adapt.scale_vars(kind0, first[0]), adapt.scale_vars(kind0, last[0])
